@@ -135,8 +135,10 @@ def main(tier):
     behs, sim = layerb.generate_behaviours("PyDRexC07", "PyDRexC07", num, 10, SEED + 1)
     chk.add_tlc("PyDRexC07(simulate)", sim, f"{num} random behaviours of depth 8")
     # the workflow machine adds bulk updates refused part-way and calls with non-callable arguments
-    fbehs, fsim = layerb.generate_behaviours("PyDRexFlow", "PyDRexFlowSim", 30 if quick else 800, 12, SEED + 2)
-    chk.add_tlc("PyDRexFlow(simulate)", fsim, "workflow behaviours incl. UpdateBadArgs (non-callable velocity gradient / position) and UpdateAllPartial")
+    fbehs, fsim = layerb.generate_behaviours("PyDRexFlow", "PyDRexFaultSim", 60 if quick else 1200, 12, SEED + 2)
+    chk.add_tlc("PyDRexFlow(simulate)", fsim, "workflow behaviours incl. UpdateBadArgs (non-callable velocity gradient / position), UpdateAllPartial and client faults (UpdateFaulted / UpdateAllFaulted: a callable of the client raises at the first evaluation, mid-interval or late)")
+    fault_mc = run_tlc("PyDRexFlow", "PyDRexFault", workers=6, timeout=900)
+    chk.add_tlc("PyDRexFlow(client faults)", fault_mc, "workflow machine with UpdateFaulted / UpdateAllFaulted: FailureAtomic, AppendOnly, RefinesLaws (refinement to the TLAPS-proved history laws) over all reachable states, 4 calls")
     behs = behs + fbehs
     comp = layerb.Comparator()
     events = []
@@ -160,7 +162,7 @@ def main(tier):
         chk.add_tlc("MineralTrace", tr, f"{len(events)} recorded calls")
         chk.cov["traces_validated_against_impl"] += len(behs)
         chk.sample(dict(kind="trace-event", event=events[min(3, len(events) - 1)]))
-        c07_clauses = ("update-accepted-where-spec", "update-raised", "failed-update-touched-history", "wrong-error-class", "null-forcing-changed-content")
+        c07_clauses = ("update-accepted-where-spec", "update-raised", "failed-update-touched-history", "wrong-error-class", "null-forcing-changed-content", "client-fault-swallowed", "client-fault-changed-the-mineral")
         for tid, line, clause in rejects:
             if clause.startswith(c07_clauses):
                 ev = events[line - 1]
